@@ -3,6 +3,16 @@ import json, os
 import vf
 
 last_drift = {}
+_printed = set()
+
+
+def list_unreached(pid):
+    """at the end of a check: the open findings listed for this property that this run did not reach are printed too (the
+    file lists them; the run neither confirms nor refutes them)"""
+    for k in vf.load_known():
+        if k.get("status") == "open" and k.get("property") == pid and k["id"] not in _printed:
+            _printed.add(k["id"])
+            print("KNOWN-FINDING: property=%s %s: %s [listed; not reached by this run]" % (pid, k["id"], k["what"]), flush=True)
 
 
 def classify(pid, viols, trace_path, describe):
@@ -21,7 +31,9 @@ def classify(pid, viols, trace_path, describe):
         else:
             new.append((ln, clause))
     for fid, ln in sorted(seen_known.items()):
-        print("KNOWN-FINDING: property=%s %s: %s" % (pid, fid, known[fid]["what"]), flush=True)
+        if fid not in _printed:
+            _printed.add(fid)
+            print("KNOWN-FINDING: property=%s %s: %s" % (pid, fid, known[fid]["what"]), flush=True)
     for c, lns in sorted(drift.items()):
         print("MODEL-DRIFT: property=%s %s at %d trace line(s), first %d (no property clause violated by these steps)" % (pid, c, len(lns), lns[0]), flush=True)
     global last_drift
